@@ -554,6 +554,13 @@ def scan_ops(core_src):
                        "self . non_df_port_count ( dir ) ; self . value_port_count ( dir ) + has_static_port as usize + non_df_count")
     if flat(inh["port_count"][1]) != want_port_count:
         fail("%s: OpType::port_count changed: %s", ops_rs, flat(inh["port_count"][1]))
+    want_port_kind = ("let signature = self . dataflow_signature ( ) . unwrap_or_default ( ) ; let port : Port = port . into ( ) ; "
+                      "let dir = port . direction ( ) ; let port_count = signature . port_count ( dir ) ; if port . index ( ) < port_count "
+                      "{ return signature . port_type ( port ) . cloned ( ) . map ( EdgeKind :: Value ) ; } let static_kind = "
+                      "self . static_port_kind ( dir ) ; if port . index ( ) == port_count { if let Some ( kind ) = static_kind "
+                      "{ return Some ( kind ) ; } } self . other_port_kind ( dir )")
+    if flat(inh["port_kind"][1]) != want_port_kind:
+        fail("%s: OpType::port_kind changed: %s", ops_rs, flat(inh["port_kind"][1]))
     want_is_container = "self . validity_flags ( ) . allowed_children != OpTag :: None"
     if flat(inh["is_container"][1]) != want_is_container:
         fail("%s: OpType::is_container changed", ops_rs)
@@ -841,6 +848,40 @@ def flags_tables(sc, tags, dfparent):
     if "validate_op_children" not in vimpls["Conditional"][1]["fn"]:
         fail("%s: Conditional has no validate_op_children", vpath)
     return flags, checks, io_tags, exit_tags
+
+
+# The CODE of the reference validator that coq/model/Validity.v transcribes by hand (rules 5-16: port counts, edge kinds,
+# connectedness, linearity, acyclicity, non-local edges, dominance).  It is not data and cannot be regenerated; what can
+# be done on every run is to notice that it is no longer the text that was transcribed: sha256 of the token stream
+# (comments, layout and string contents do not count) of each function of `impl ValidationContext`.  On a mismatch:
+# re-read the function, update Validity.v if its meaning changed, then update the digest here.
+TRANSCRIBED_CODE = {
+    "validate": "d5ef6f4c02af396d2686a078dc2de145449b1aae0c30021ada8e157fea6a3fc6",
+    "compute_dominator": "a838297cb4cb479703d11f4a823bcfe71c8212bb5ade9fffb04ca67523b22d72",
+    "validate_node": "ff124f121643361e1d64e93ded50226097cbf14cd5b352473583859a264c708b",
+    "validate_port": "2908834ed37623497d44297b369f3177504d8c136d9fde8c0778dc666b111a36",
+    "validate_children": "112b9f523dc2be8725e4a60bbbd6b6067c56d0ce3a4e9808fb11edc133984c25",
+    "validate_children_dag": "4dd8b83f84122b39690187af89e90c74edf18fd3bcc2692ff615e96129e0d55f",
+    "validate_edge": "d7cafec38b3e8a2a5a6c91a886aba7472f04e0378795c4e17d5f1b82c8c41e3f",
+}
+
+
+def check_transcribed_code(core_src):
+    import hashlib
+    path = os.path.join(core_src, "hugr", "validate.rs")
+    ctx = [it for it in load(path) if it.kind == "impl" and impl_header(it)[1] is None
+           and impl_header(it)[2].startswith("ValidationContext")]
+    ms = methods(one(ctx, "impl ValidationContext in " + path).body, path, lenient=True)["fn"]
+    out = []
+    for name, want in TRANSCRIBED_CODE.items():
+        if name not in ms or ms[name][1] is None:
+            fail("%s: ValidationContext::%s not found", path, name)
+        got = hashlib.sha256(flat(ms[name][1]).encode()).hexdigest()
+        if got != want:
+            fail("%s: ValidationContext::%s is no longer the code coq/model/Validity.v transcribes (sha256 of its tokens %s, "
+                 "transcribed %s): re-read it, then update Validity.v and TRANSCRIBED_CODE", path, name, got, want)
+        out.append((name, got))
+    return out
 
 
 def scan_hugr_validate(core_src, tags):
@@ -1239,6 +1280,7 @@ def scan(repo):
     dom_tag, unconnected_ok_tag, unconnected_ok_kinds, linear_extra = scan_hugr_validate(core, tags)
     edge_kinds, static_kinds = scan_edge_kind(core)
     sigt = signature_tables(sc, has_sig, dfparent)
+    pinned = check_transcribed_code(core)
     for k in unconnected_ok_kinds + linear_extra:
         if k not in edge_kinds:
             fail("hugr/validate.rs: unknown EdgeKind::%s", k)
@@ -1250,7 +1292,8 @@ def scan(repo):
             "has_sig": has_sig, "dfparent": dfparent, "flags": flags, "checks": checks, "io_tags": io_tags,
             "exit_tags": exit_tags, "static_input_tag": sc["static_input_tag"], "dom_tag": dom_tag,
             "unconnected_ok_tag": unconnected_ok_tag, "unconnected_ok_kinds": unconnected_ok_kinds,
-            "linear_extra": linear_extra, "edge_kinds": edge_kinds, "static_kinds": static_kinds, "sigt": sigt}
+            "linear_extra": linear_extra, "edge_kinds": edge_kinds, "static_kinds": static_kinds, "sigt": sigt,
+            "pinned": pinned}
 
 
 def render(t) -> str:
@@ -1324,6 +1367,9 @@ def render(t) -> str:
                "Definition rs_successor_input : %s := %s.\n"
                % (ity, qitems(g["case_input_row"]), ity, qitems(g["case_output_row"]), ity, qitems(g["successor_input"])))
     out.append(assoc("rs_block_input", ity, [(k, qitems(v)) for k, v in g["block_input"]], "BasicBlock::dataflow_input"))
+    out.append(assoc("rs_transcribed_code", "string", [(k, '"%s"' % v) for k, v in t["pinned"]],
+                     "hugr/validate.rs: sha256 of the token stream of the functions of impl ValidationContext that Validity.v "
+                     "transcribes (checked by the scanner against the digests recorded when they were transcribed)"))
     return "\n".join(out)
 
 
